@@ -333,6 +333,15 @@ def path_conditions(root, node, stop_at=None):
             raw.append((prev.test, False))
           elif isinstance(prev, ast.If) and prev.orelse and _terminal(prev.orelse) and not _terminal(prev.body):
             raw.append((prev.test, True))
+          elif isinstance(prev, (ast.If, ast.With, ast.Try)):
+            # an exit nested deeper in an earlier statement: past that statement the conjunction of the tests leading to the exit is false
+            for x in ast.walk(prev):
+              if isinstance(x, (ast.Return, ast.Raise, ast.Continue, ast.Break)) and not (isinstance(x, (ast.Continue, ast.Break)) and
+                                                                                          any(isinstance(a_, (ast.For, ast.While)) and a_ is not prev for a_ in ancestors(prev, x))):
+                tests = [(t if pol else ast.UnaryOp(op=ast.Not(), operand=t)) for (t, pol) in enclosing_tests(prev, x)]
+                tests.append(prev.test if (isinstance(prev, ast.If) and any(x is n for s_ in prev.body for n in ast.walk(s_))) else
+                             (ast.UnaryOp(op=ast.Not(), operand=prev.test) if isinstance(prev, ast.If) else ast.Constant(value=True)))
+                raw.append((ast.BoolOp(op=ast.And(), values=tests) if len(tests) > 1 else tests[0], False))
     if stop_at is not None and cur is stop_at:
       break
     if isinstance(cur, (ast.FunctionDef, ast.AsyncFunctionDef)) and cur is not root:
